@@ -26,7 +26,7 @@ REQUIRED_COUNTERS = ["top_level_alias_calls", "direct_dft_comparisons"]
 
 def plan(tier, seed):
     n = 16
-    return [{"shard": i, "n_shards": n, "reps": 1 if tier == "quick" else 12,
+    return [{"shard": i, "n_shards": n, "reps": 1 if tier == "quick" else 120,
              "big": [47, 64, 81, 97, 128, 255, 256] if tier == "quick" else [47, 64, 97, 127, 128, 255, 256, 509, 512, 1000, 1023, 1024]}
             for i in range(n)]
 
